@@ -2,6 +2,13 @@
    class: 0 ok, 1 error, 2 panic.  parsers: 0 binpatch_load 1 zip_cd 2 apk_signers 3 apk_signed_data 4 apk_v2 5 xap_trailer 6 csblob_super 7 apk_digest_loop *)
 From Relic Require Import Base.Prelude Base.Enc Base.Val Generated.C11_gen C11.Model.
 From Relic Require C17.Model C12.Model.
+From Relic Require Import C11.Text.
+(* text parsers: 8 deb_control 9 deb_checksig 10 jar_manifest 11 jar_digest 12 pgp_tail 13 pgp_head 14 pgp_detach 15 jar_split *)
+Definition lp (b : bytes) : list Z := zlen b :: b.
+Definition info_vals (i : pinfo) : list Z := lp (pi_pkg i) ++ lp (pi_ver i) ++ lp (pi_arch i).
+(* the digest table the harness hands to checkSig *)
+Definition run_digs : list (bytes * bytes) :=
+  [([97], repeat 48 32 ++ [32] ++ repeat 49 40); ([98; 98], repeat 50 32 ++ [32] ++ repeat 51 40)].
 
 Definition out {A} (r : result A) (f : A -> list Z) (spec : Z) : val :=
   match r with
@@ -40,4 +47,18 @@ Definition run (v : val) : val :=
   else if p =? 5 then out (xap_remove b) (fun n => [n]) 1
   else if p =? 6 then out (parse_super b) (fun r => fst r :: zlen (snd r) :: flat_map (fun i => [it_type i; it_magic i; it_len i]) (snd r)) 1
   else if p =? 7 then out (verify_digests (map vz args)) (fun n => [n]) 1
+  else if p =? 8 then
+    (* spec: a policy-conformant simple control file with Package and Version must be accepted with exactly these values *)
+    let sp := if spec_simple b then spec_control b else None in
+    match out (parse_control b) info_vals (match sp with Some _ => 0 | None => 1 end) with
+    | VL l => VL (l ++ [VZs (match sp with Some i => info_vals i | None => [] end)])
+    | v => v
+    end
+  else if p =? 9 then out (check_sig run_digs b) (fun _ => []) 1
+  else if p =? 10 then out (parse_manifest b) (fun r => [fst r; if snd r then 1 else 0]) 1
+  else if p =? 11 then out (digest_manifest b) (fun n => [n]) 1
+  else if p =? 12 then out (tail_clear_sign b) (fun o => o) 1
+  else if p =? 13 then out (head_clear_sign b) (fun o => o) 1
+  else if p =? 14 then out (detach_clear_sign b) (fun _ => []) 1
+  else if p =? 15 then out (split_manifest b) (fun r => zlen (fst r) :: (if snd r then 1 else 0) :: map (fun x => zlen x) (fst r)) 1
   else VL [VZ 9; VZs []; VZ 1; VZ 0].
